@@ -56,15 +56,26 @@ def case_from_json(c):
 
 # ---------------------------------------------------------------- running the implementation
 
+# The model treats request_writes + submission as one atomic step.  In the code
+# that is the manager's submit lock: probed on every call of the manager paths.
+PROBE = {'request_writes_calls': 0, 'request_writes_without_lock': 0,
+         'io_submits': 0, 'io_submits_without_lock': 0}
+
+
 class FifoIO:
     """Stand-in for the IO executor: one worker, tasks run in submission order."""
 
     def __init__(self):
         self.q = []
         self.submitted = 0
+        self.lock = None
 
     def submit(self, task, tag=None, block=True):
         from s3transfer.futures import ExecutorFuture
+        if self.lock is not None:
+            PROBE['io_submits'] += 1
+            if not self.lock.locked():
+                PROBE['io_submits_without_lock'] += 1
         cf = concurrent.futures.Future()
         self.q.append((task, cf))
         self.submitted += 1
@@ -131,6 +142,17 @@ def run_impl(hist, path, state=False):
     io_ex = FifoIO()
     mgr = download.DownloadNonSeekableOutputManager(OSUtils(), coord, io_ex)
     out = Stream()
+    dq, lock = getattr(mgr, '_defer_queue', None), getattr(mgr, '_io_submit_lock', None)
+    if dq is not None and hasattr(lock, 'locked'):
+        io_ex.lock = lock
+        orig = dq.request_writes
+
+        def probed(offset, data):
+            PROBE['request_writes_calls'] += 1
+            if not lock.locked():
+                PROBE['request_writes_without_lock'] += 1
+            return orig(offset, data)
+        dq.request_writes = probed
     cls = download.GetObjectTask if path == 'mgr-queue' else download.ImmediatelyWriteIOGetObjectTask
     task = cls(coord, main_kwargs={})
     counts = []
@@ -168,6 +190,13 @@ def impl_out(hist, path):
 def impl_state_out(hist):
     r = run_impl(hist, 'queue', state=True)
     return r if isinstance(r, str) else fmt(r[0], r[1]) + '#' + str(r[2])
+
+
+def state_visible():
+    """The heap/pending comparison reads private attributes; if a refactor
+    renamed them only the observable behaviour (writes per call) is compared."""
+    r = run_impl(((1, b'x'),), 'queue', state=True)
+    return not isinstance(r, str) and r[2] != 'STATE-SHAPE-CHANGED'
 
 
 # ---------------------------------------------------------------- oracle
@@ -226,13 +255,72 @@ def short(hist):
     return s
 
 
+def single_get_shape(hist):
+    """every attempt starts at byte 0 and delivers consecutive chunks (one GET for the whole object)"""
+    pos = None
+    for o, d in hist:
+        if o != 0 and o != pos:
+            return False
+        pos = o + len(d)
+    return True
+
+
+def in_grammar(obj, hist):
+    """Is this consistent history one the download loop can produce: is there a
+    set of part starts such that every delivery either begins an attempt at its
+    part's first byte or continues that part's current attempt, inside the part?
+    (brute force over the delivered offsets; None = too many to decide)"""
+    if not is_consistent(obj, hist):
+        return False
+    if len(obj) == 0 or not hist:
+        return all(o == 0 for o, _ in hist)
+    if any(len(d) == 0 for _, d in hist):
+        return False                     # an empty chunk is only ever read from an empty body
+    offs = sorted({o for o, _ in hist})
+    if len(offs) > 12:
+        return None
+    first, rest = offs[0], offs[1:]      # the lowest delivered offset must begin an attempt
+    for mask in range(1 << len(rest)):
+        starts = [first] + [o for i, o in enumerate(rest) if mask >> i & 1]
+        pos, ok = {}, True
+        for o, d in hist:
+            k = max(i for i, st in enumerate(starts) if st <= o)
+            end = starts[k + 1] if k + 1 < len(starts) else len(obj)
+            if o + len(d) > end:
+                ok = False
+            elif o == starts[k]:
+                pos[k] = o + len(d)
+            elif pos.get(k) == o:
+                pos[k] = o + len(d)
+            else:
+                ok = False
+            if not ok:
+                break
+        if ok:
+            return True
+    return False
+
+
+def applicable(path, obj, hist):
+    """Does C16's quantifier cover this history on this path?"""
+    if path == 'mgr-immediate' and not single_get_shape(hist):
+        return False                     # the immediate path serves one GET for the whole object
+    return in_grammar(obj, hist) is not False
+
+
 def shrink(obj, hist, path):
-    """Greedy removal of deliveries while the oracle keeps failing."""
+    """Shortest failing prefix, then greedy removal of deliveries while the
+    history stays inside the statement's grammar and the oracle keeps failing."""
     hist = list(hist)
+    for n in range(1, len(hist) + 1):
+        if oracle(obj, hist[:n], path):
+            hist = hist[:n]
+            break
     i = 0
     while i < len(hist) and len(hist) > 1:
         cand = hist[:i] + hist[i + 1:]
-        if oracle(obj, cand, path):
+        if (path != 'mgr-immediate' or single_get_shape(cand)) and in_grammar(obj, cand) \
+                and oracle(obj, cand, path):
             hist = cand
         else:
             i += 1
@@ -240,6 +328,10 @@ def shrink(obj, hist, path):
 
 
 def report_failure(ctx, obj, hist, path, why=None):
+    n = ctx.__dict__.setdefault('c16_reported', {})
+    if n.get(path, 0) >= 2:              # one cause, many histories: keep room for other paths
+        return
+    n[path] = n.get(path, 0) + 1
     small = shrink(obj, hist, path)
     what = oracle(obj, small, path) or why
     sig = f'oracle:{path}:' + ' '.join(tok(o, d) for o, d in small)
@@ -315,7 +407,7 @@ def random_grammar_history(rng, max_len=60):
         obj = bytes(rng.choice(b'ab') for _ in range(size))      # equal data at different offsets
     else:
         obj = bytes(rng.randrange(256) for _ in range(size))
-    nparts = rng.randrange(1, min(4, size) + 1)
+    nparts = 1 if rng.random() < 0.25 else rng.randrange(1, min(4, size) + 1)
     cuts = sorted(rng.sample(range(1, size), nparts - 1)) if nparts > 1 else []
     bounds = [0] + cuts + [size]
     seqs = []
@@ -377,6 +469,8 @@ def nontrivial_key(case, out):
 # ---------------------------------------------------------------- the check
 
 def run(ctx):
+    for k in PROBE:
+        PROBE[k] = 0
     ok = common.proofs(ctx, 'C16', EXTRACT, COMPONENTS)
     ctx.assumptions = [
         'the heap of withheld writes is modelled as the list of its elements in heapq pop order (Python tuple order on '
@@ -398,39 +492,43 @@ def run(ctx):
     fails = []          # (path, obj, hist, impl, model)
 
     if ctx.broken is None:
-        streams = []
-        streams.append(('corpus', corpus_cases()))
-        # ---- exhaustive small scope of the grammar
-        if ctx.thorough():
-            scope = [(0, 3, 3, 3), (1, 3, 3, 7), (2, 3, 3, 7), (3, 3, 3, 7), (4, 3, 3, 6), (5, 3, 2, 5), (6, 3, 2, 5)]
-        else:
-            scope = [(0, 3, 3, 3), (1, 3, 3, 6), (2, 3, 3, 6), (3, 3, 3, 5), (4, 3, 2, 5), (5, 3, 2, 4)]
-        exh = []
-        for (size, mp, ma, ml) in scope:
-            obj = bytes(range(0x61, 0x61 + size))
-            hs = grammar_histories(obj, mp, ma, ml)
-            ctx.cov.setdefault('exhaustive_scopes', []).append(
-                {'object_bytes': size, 'max_parts': mp, 'max_attempts_per_part': ma, 'max_deliveries': ml,
-                 'maximal_histories': len(hs)})
-            exh += [('exh', obj, h) for h in hs]
-        streams.append(('exhaustive', exh))
-        # ---- random grammar histories
-        rng = ctx.rng('grammar')
-        n_rand = 20000 if ctx.thorough() else 3000
-        rnd = []
-        for _ in range(n_rand):
-            obj, h = random_grammar_history(rng)
-            rnd.append(('rand', obj, h))
-        streams.append(('random', rnd))
-        # ---- malformed stream
-        rng = ctx.rng('malformed')
-        mal = []
-        for _ in range(20000 if ctx.thorough() else 4000):
-            obj, h = malformed_history(rng)
-            mal.append(('malformed', obj, h))
-        streams.append(('malformed', mal))
+        exh_sample, rnd_sample = [], []
 
-        for name, cases in streams:
+        def streams():
+            yield 'corpus', corpus_cases()
+            # ---- exhaustive small scopes of the grammar: (object bytes, parts, attempts per part, deliveries)
+            if ctx.thorough():
+                scope = [(0, 3, 3, 3), (1, 3, 3, 7), (2, 3, 3, 7), (3, 3, 3, 7), (4, 3, 3, 7), (5, 3, 3, 6),
+                         (6, 3, 3, 5), (7, 3, 2, 5)]
+            else:
+                scope = [(0, 3, 3, 3), (1, 3, 3, 7), (2, 3, 3, 7), (3, 3, 3, 7), (4, 3, 3, 6), (5, 3, 3, 5),
+                         (6, 3, 2, 5), (7, 3, 2, 4)]
+            for (size, mp, ma, ml) in scope:
+                obj = bytes(range(0x61, 0x61 + size))
+                hs = grammar_histories(obj, mp, ma, ml)
+                ctx.cov.setdefault('exhaustive_scopes', []).append(
+                    {'object_bytes': size, 'max_parts': mp, 'max_attempts_per_part': ma, 'max_deliveries': ml,
+                     'maximal_histories': len(hs)})
+                if size == 5:
+                    exh_sample.append((obj, hs[len(hs) // 2]))
+                yield 'exhaustive', [('exh', obj, h) for h in hs]
+            # ---- random grammar histories
+            rng = ctx.rng('grammar')
+            rnd = []
+            for _ in range(40000 if ctx.thorough() else 6000):
+                obj, h = random_grammar_history(rng)
+                rnd.append(('rand', obj, h))
+            rnd_sample.append(rnd[0])
+            yield 'random', rnd
+            # ---- malformed stream
+            rng = ctx.rng('malformed')
+            mal = []
+            for _ in range(40000 if ctx.thorough() else 8000):
+                obj, h = malformed_history(rng)
+                mal.append(('malformed', obj, h))
+            yield 'malformed', mal
+
+        for name, cases in streams():
             if not cases:
                 continue
             for path in PATHS:
@@ -452,49 +550,70 @@ def run(ctx):
                 break
             # state equivalence of the raw queue (heap + pending dict)
             sub = cases[::(3 if name == 'exhaustive' else 1)]
-            mism = common.differential(
-                ctx, 'deferq', sub,
-                lambda c: model_line(c[2], 'hs'),
-                lambda c: impl_state_out(c[2]),
-                key=nontrivial_key,
-                hist=lambda c, o, name=name: {'stream_path': f'{name}/queue-state'})
-            fails += [('queue', c[1], c[2], i, m) for c, i, m in mism]
+            if not state_visible():
+                if name == 'corpus':
+                    ctx.notes.append('DeferQueue._writes/_pending_offsets/_next_offset are not a list/dict/int any more: '
+                                     'state comparison skipped, writes per call still compared on every history')
+                sub = []
+            if sub:
+                mism = common.differential(
+                    ctx, 'deferq', sub,
+                    lambda c: model_line(c[2], 'hs'),
+                    lambda c: impl_state_out(c[2]),
+                    key=nontrivial_key,
+                    hist=lambda c, o, name=name: {'stream_path': f'{name}/queue-state'})
+                fails += [('queue', c[1], c[2], i, m) for c, i, m in mism]
             # oracle on the implementation alone (may catch what the model agrees with)
             step = 1 if name != 'exhaustive' else (2 if ctx.thorough() else 5)
             n_or = 0
             for c in cases[::step]:
+                if name == 'malformed':
+                    continue             # outside the statement's quantifier: plain model equivalence only
                 for path in PATHS:
+                    if path == 'mgr-immediate' and not single_get_shape(c[2]):
+                        continue
+                    if name == 'corpus' and not applicable(path, c[1], c[2]):
+                        continue
                     r = oracle(c[1], c[2], path)
                     n_or += 1
                     if r:
                         report_failure(ctx, c[1], c[2], path, r)
-            ctx.cov.setdefault('oracle_runs', {})[name] = n_or
+            ctx.cov.setdefault('oracle_runs', {})[name] = ctx.cov.get('oracle_runs', {}).get(name, 0) + n_or
         ctx.cov['exhaustive'] = False   # exhaustive within the listed scopes only; the theorems are unbounded
-        if exh:
-            ctx.sample({'component': 'deferq-exhaustive', 'object': exh[len(exh) // 2][1].hex(),
-                        'history': [[o, d.hex()] for o, d in exh[len(exh) // 2][2]]})
-        if rnd:
-            ctx.sample({'component': 'deferq-random', 'object': rnd[0][1].hex(),
-                        'history': [[o, d.hex()] for o, d in rnd[0][2]],
-                        'impl_and_model_output': impl_out(rnd[0][2], 'queue')})
+        for obj, h in exh_sample:
+            ctx.sample({'component': 'deferq-exhaustive', 'object': obj.hex(),
+                        'history': [[o, d.hex()] for o, d in h], 'impl_and_model_output': impl_out(h, 'queue')})
+        for (_, obj, h) in rnd_sample:
+            ctx.sample({'component': 'deferq-random', 'object': obj.hex(),
+                        'history': [[o, d.hex()] for o, d in h], 'impl_and_model_output': impl_out(h, 'queue')})
+
+        ctx.cov['submit_lock_probe'] = dict(PROBE)
+        if PROBE['request_writes_without_lock'] or PROBE['io_submits_without_lock']:
+            ctx.report('assumption:submit-lock',
+                       f'the manager called request_writes / submitted a released write to the IO executor without holding its '
+                       f'submit lock ({PROBE}): with concurrent GetObject tasks two releases can interleave and reach the stream out of '
+                       f'order; the atomic-step assumption of the model (coq/model/DeferQ.v manager_step) no longer mirrors the code',
+                       {'kind': 'correspondence', 'theorem_or_correspondence': 'manager_step atomicity (download.py _io_submit_lock)',
+                        'probe': dict(PROBE)}, no_input=True)
+        elif not PROBE['request_writes_calls']:
+            ctx.notes.append('submit-lock probe: DownloadNonSeekableOutputManager has no _defer_queue/_io_submit_lock attribute to probe')
 
         # ---- end to end
         if ctx.broken is None:
             end_to_end(ctx, fails)
 
     # every mismatch: is it a violation of C16 on the implementation?
-    reported = 0
-    for (path, obj, hist, i, m) in fails:
-        if reported >= 12:
-            break
-        reported += 1
-        r = oracle(obj, hist, path) if is_consistent(obj, hist) else oracle(None, hist, path)
+    fails = sorted(fails, key=lambda f: len(f[2]))[:40]
+    fails.sort(key=lambda f: (not applicable(f[0], f[1], f[2]), len(f[2])))
+    for (path, obj, hist, i, m) in fails[:12]:
+        r = oracle(obj, hist, path) if applicable(path, obj, hist) else None
         if r:
-            report_failure(ctx, obj if is_consistent(obj, hist) else None, hist, path, r)
+            report_failure(ctx, obj, hist, path, r)
         else:
             ctx.report(f'corr:deferq:{path}',
                        f'model and implementation disagree ({path}) on {short(hist)}: impl={i} model={m}; '
-                       f'C16\'s oracle holds on this history, so the Coq model no longer mirrors the code',
+                       f'C16\'s oracle does not fail on this history (or the history is outside the statement\'s quantifier), '
+                       f'so what is broken is the correspondence: the Coq model no longer mirrors the code',
                        {'kind': 'correspondence', 'theorem_or_correspondence': f'differential deferq/{path}',
                         'case': case_json(obj, hist, path), 'impl': i, 'model': m}, no_input=True)
     if ctx.broken is not None:
@@ -515,6 +634,8 @@ def search_after_break(ctx):
         cases.append(('rand', obj, h))
     for (_, obj, hist) in cases:
         for path in PATHS:
+            if not applicable(path, obj, hist):
+                continue
             r = oracle(obj, hist, path)
             ctx.count('deferq-oracle', 1, nontrivial_key=(path, hist), path=path)
             if r:
@@ -672,7 +793,8 @@ def end_to_end(ctx, fails, with_model=True):
             problem = f'download raised {type(err).__name__}: {err}'
         elif got != data:
             problem = f'the stream received {got!r}, the object is {data!r}'
-        if problem:
+        if problem and ctx.__dict__.setdefault('c16_reported', {}).get('e2e', 0) < 2:
+            ctx.c16_reported['e2e'] = ctx.c16_reported.get('e2e', 0) + 1
             ctx.report('e2e:' + json.dumps(desc, sort_keys=True),
                        f'download of a {size}-byte object to a non-seekable stream '
                        f'({"single GET" if size < thr else f"{nparts} ranged GETs"}, socket.timeout injected: {desc["faults"]}): {problem}; '
@@ -684,10 +806,11 @@ def end_to_end(ctx, fails, with_model=True):
         if with_model and log:
             lines.append(model_line(hist))
             logs.append((desc, data, hist, fmt([w for (_, _, w) in log], sum(len(d) for (_, _, w) in log for (_, d) in w))))
-    if lines:
-        ctx.sample({'component': 'deferq-e2e', 'scenario': logs[len(logs) // 2][0],
-                    'deliveries_seen': [[o, d.hex()] for o, d in logs[len(logs) // 2][2]],
-                    'writes': logs[len(logs) // 2][3]})
+    det = [l for l in logs if not l[0]['threaded'] and l[0]['multipart_threshold'] == 1]
+    if det:
+        pick = det[len(det) // 2]
+        ctx.sample({'component': 'deferq-e2e', 'scenario': pick[0],
+                    'deliveries_seen': [[o, d.hex()] for o, d in pick[2]], 'writes': pick[3]})
     if with_model and lines:
         model = common.run_model('deferq', lines)
         for (desc, data, hist, o), m in zip(logs, model):
